@@ -56,6 +56,8 @@ def rand_prog(rng: random.Random, c: dict, level: int, nb: int, own_bus: int, sy
                     opts['rtype'] = rng.choice(['str', 'int', 'list', 'dict'])  # the event declares a result type
                 if rng.random() < c['p_explicit_parent']:
                     opts['parent'] = '00000000-0000-7000-8000-%012x' % rng.randrange(1 << 40)
+                elif rng.random() < c.get('p_none_parent', 0.05):
+                    opts['parent'] = 'none'  # event_parent_id=None passed explicitly
                 elif rng.random() < c.get('p_prebuilt', 0.06):
                     opts['prebuilt'] = True  # the object was constructed before the program started and is handed to this handler
                 if rng.random() < c.get('p_unenc', 0.04):
@@ -337,7 +339,24 @@ def stop_derive(sc: dict, t: float, rng: random.Random):
         # tear-down code that, some time after stop() returned, also waits for the (stopped) bus to be idle: bounded, and it must not
         # bring the bus back to life
         after = [['sleep', rng.choice([0.02, 0.2, 0.5])], ['idle', b, rng.choice([0.05, 0.5])]]
-    s1['actors'] = s1['actors'] + [[['sleep', t], ['stop', b, timeout, clear]] + after]
+    before = []
+    if after and rng.random() < 0.6:
+        # ... and in between offers the stopped bus an event that was completed earlier (refused: the bus is stopped)
+        before = [['disp', 0, b, 'await', 0, {}]]
+        after = [after[0], ['redisp', 0, b]] + [['idle', b, None]]
+    s1['actors'] = s1['actors'] + [before + [['sleep', t], ['stop', b, timeout, clear]] + after]
+    if not after and rng.random() < 0.15:
+        # EVERY bus is stopped with clear=True (handlers that need time to unwind may still be running), then a bus that did not
+        # exist before is created and used at once
+        s1['buses'] = s1['buses'] + [{'name': 'Bnew', 'par': False, 'lazy': True, 'hist': None}]
+        s1['handlers'] = s1['handlers'] + [{'bus': nb, 'pat': 0, 'kind': 'async', 'prog': [['sleep', 0.05]]}]
+        for h_ in s1['handlers']:
+            if h_['kind'][0] == 'a' and 'cleanup' not in h_ and rng.random() < 0.5:
+                h_['cleanup'] = rng.choice([0.15, 0.4])
+        s1['actors'][-1] = [['sleep', t]] + [['stop', k, 0, True] for k in range(nb)] + [['disp', 0, nb, 'await', 0, {}]]
+        s1['no_idle_probe'] = True
+        yield s1
+        return
     x = rng.random()
     if x < 0.15:  # a second, concurrent or slightly later stop() of the same bus
         s1['actors'] = s1['actors'] + [[['sleep', t + rng.choice([0.0, 0.0, 0.02, 0.2])], ['stop', b, rng.choice([None, 0, 0.05]), rng.random() < 0.3]]]
@@ -403,6 +422,26 @@ def retry_handler_derive(sc: dict, t: float, rng: random.Random):
     yield sc
 
 
+def cyclic_timeout_base(rng: random.Random, i: int) -> dict:
+    """One narrow shape with a circular child graph under a handler timeout: the root's handler awaits a child whose first handler
+    hands the ROOT on to a second bus (the root becomes a child of its own child) and whose second handler is slow."""
+    buses = [{'name': 'B0', 'par': False, 'lazy': False, 'hist': None}, {'name': 'B1', 'par': rng.random() < 0.3, 'lazy': False, 'hist': None}]
+    hs = [
+        {'bus': 0, 'pat': 0, 'kind': 'async', 'prog': [['sleep', rng.choice([0, 0.05])], ['disp', 1, 0, 'await', None, {}], ['sleep', 0.2]]},
+        {'bus': 0, 'pat': 1, 'kind': rng.choice(['sync', 'async']), 'prog': [['redisp_parent', 1]]},
+        {'bus': 0, 'pat': 1, 'kind': 'async', 'prog': [['sleep', rng.choice([0.2, 0.3])]]},
+        {'bus': 0, 'pat': 1, 'kind': 'async', 'prog': [['sleep', 0.05]]},
+        {'bus': 1, 'pat': 0, 'kind': 'async', 'prog': [['sleep', 0.05]]},
+    ]
+    actors = [[['disp', 0, 0, 'await', 0, {}]], [['sleep', 1.5], ['disp', 1, 0, 'await', 0, {}]]]
+    return {'seed': rng.randrange(1 << 30), 'buses': buses, 'fwd': [], 'handlers': hs, 'actors': actors}
+
+
+def cyclic_timeout_derive(sc: dict, t: float, rng: random.Random):
+    sc['actors'][0][0][5] = {'timeout': t}
+    yield sc
+
+
 def walcancel_base(rng: random.Random, i: int) -> dict:
     """Buses that keep a write-ahead log and process fire-and-forget events in their OWN run loops (no inline drains): every event's
     completion instant is followed, at the same virtual instant, by the run loop's WAL append - several thread hand-offs long."""
@@ -455,6 +494,8 @@ def timeout_base(rng: random.Random, i: int) -> dict:
         sc['handlers'].append({'bus': 0, 'pat': 0, 'kind': 'async', 'prog': [['sleep', 0.05], ['disp', 3, rng.randrange(nb), 'await', None, {}], ['sleep', 0.05]]})
         sc['handlers'].append({'bus': rng.randrange(nb), 'pat': 3, 'kind': 'async', 'prog': [['sleep', 0.3]]})
         sc['actors'].append([['sleep', rng.choice([0.01, 0.06])], ['await_hresult', 0, 0, rng.choice([-1, -1, 1, 2])], ['sleep', 0.3], ['await_hresult', 0, 0, 0]])
+    # (cyclic child graphs - a handler handing its own ancestor on - were tried here in round 17: they exposed F33 and F34, both
+    # repaired; what a timeout sweep and the completion walk should mean on a cycle is not settled by C10, see DESIGN 8.6)
     if rng.random() < 0.25:
         # an event object created and dispatched by top-level code (queued behind the root) that a handler of the root passes on to
         # a further bus and awaits: it has several handlers there, so a timeout can hit while the first is running
@@ -818,7 +859,9 @@ def later_scenario(rng: random.Random, i: int) -> dict:
     prog = []
     n_ch = rng.randint(2, 4)
     for k in range(n_ch):
-        prog.append(['disp', 1 + (k % 2), rng.randrange(nb) if rng.random() < 0.3 else 0, rng.choice(['later', 'later', 'await', 'fire']), rng.choice([None, 0, 0.05]), {}])
+        # (some children carry a timeout that their own handlers - at most 0.1 s of work - never reach, but which is shorter than the
+        # time the queue ahead of them needs: a timeout bounds a handler's run, not how long somebody waits for the event)
+        prog.append(['disp', 1 + (k % 2), rng.randrange(nb) if rng.random() < 0.3 else 0, rng.choice(['later', 'later', 'await', 'fire']), rng.choice([None, 0, 0.05]), {'timeout': rng.choice([0.2, 0.25, 0.4])} if rng.random() < 0.4 else {}])
         if rng.random() < 0.3:
             prog.append(['sleep', rng.choice(SHORT)])
     rng.shuffle(prog)
